@@ -1,6 +1,6 @@
 /* C16: varint + fixed codecs.  Real code: /repo/mtbl/varint.c, /repo/mtbl/fixed.c (included verbatim). */
-#include "/repo/mtbl/varint.c"
-#include "/repo/mtbl/fixed.c"
+#include "mtbl/varint.c"
+#include "mtbl/fixed.c"
 #include "spec/ghost.h"
 
 /* spec: standard little-endian base-128 length */
